@@ -97,6 +97,7 @@ fn tag_shapes() -> Vec<(&'static str, String)> {
         ("box-in-box", "+-------------+\n|             |\n| +-------+   |\n| |       |   |\n| +-------+   |\n|             |\n+-------------+".to_string()),
         ("two-boxes-in-box", "+-----------------+\n|                 |\n| +-----+ +-----+ |\n| |     | |     | |\n| +-----+ +-----+ |\n|                 |\n+-----------------+".to_string()),
         ("box-with-text-in-box", "+--------------+\n| note         |\n| +-----+      |\n| |     |      |\n| +-----+      |\n+--------------+".to_string()),
+        ("three-deep", "+---------------------+\n|                     |\n| +-----------------+ |\n| |                 | |\n| | +-------------+ | |\n| | |             | | |\n| | +-------------+ | |\n| |                 | |\n| +-----------------+ |\n|                     |\n+---------------------+".to_string()),
         ("box-in-circle", {
             // the largest catalogue circle with a small box inside
             let mut cv = shapes::Canvas::new();
@@ -257,7 +258,7 @@ impl Prop for C16 {
     fn rule(&self) -> &'static str {
         "legend: header in {'# Legend:', '  # Legend:  '} x all sequences of up to 2 (thorough 3) entries from 24 (4 identifiers x 6 declaration strings with spaces, ;:#-.,() quotes, a newline, and the empty declaration) \
          plus chains of 4, 5, 6 entries, all starting at column 0 (the grammar, like the statement, only accepts entries that start a line) x {LF, CRLF} x 0..2 trailing blank lines x {no diagram, a box, text} above: the style element is the built-in sheet followed in order by '.svgbob .name{ decls }' rules, \
-         and canvas and elements equal the diagram alone. tags: 7 shapes (sharp box, rounded box, circle, box in box, two sibling boxes in a box, a box below a line of text in a box, box in circle) x 5 tags x every position of the page grid where the tag fits on blanks \
+         and canvas and elements equal the diagram alone. tags: 8 shapes (three boxes nested in each other, sharp box, rounded box, circle, box in box, two sibling boxes in a box, a box below a line of text in a box, box in circle) x 5 tags x every position of the page grid where the tag fits on blanks \
          x {alone, with a word beside it}: inside a shape's bounding box the innermost rect/circle gains exactly the names and nothing else changes and the tag is gone; outside every bounding box it stays text. \
          distinct_nontrivial = distinct (rule count, diagram) and (inside/outside, shape, tag) outcomes that passed"
     }
